@@ -65,12 +65,12 @@ def Ops.div (O : Ops α) (x y : α) : Res α :=
   | none => .hang
 
 /-- `for i in idxs { st = body(st, i) }`, leaving at the first panic -/
-def forM {ι σ : Type} (idxs : List ι) (st : σ) (body : σ → ι → Res σ) : Res σ :=
+def loopM {ι σ : Type} (idxs : List ι) (st : σ) (body : σ → ι → Res σ) : Res σ :=
   match idxs with
   | [] => .ok st
   | i :: rest =>
     match body st i with
-    | .ok st' => forM rest st' body
+    | .ok st' => loopM rest st' body
     | .panic s => .panic s
     | .hang => .hang
 
@@ -137,11 +137,11 @@ def mulByScalar (O : Ops α) (p : List α) (k : α) : List α := p.map fun c => 
 
 /-- inner loop of `mul`: `for j in 0..b.len() { result[i + j] += a[i] * b[j] }` -/
 def mulInner (O : Ops α) (ai : α) (i : Nat) (b : List α) (r : List α) : Res (List α) :=
-  forM b.zipIdx r fun r bj => updAt r (i + bj.2) fun v => O.add v (O.mul ai bj.1)
+  loopM b.zipIdx r fun r bj => updAt r (i + bj.2) fun v => O.add v (O.mul ai bj.1)
 
 /-- `polynom::mul` (after fix 56f5e3a: `result_len = (a.len() + b.len()).saturating_sub(1)`) -/
 def mul (O : Ops α) (a b : List α) : Res (List α) :=
-  forM a.zipIdx (List.replicate (a.length + b.length - 1) O.zero) fun r ai => mulInner O ai.1 ai.2 b r
+  loopM a.zipIdx (List.replicate (a.length + b.length - 1) O.zero) fun r ai => mulInner O ai.1 ai.2 b r
 
 -- ================================================================================ degree
 
@@ -175,7 +175,7 @@ def divStep (O : Ops α) (b : List α) (bpos : Nat) (st : DivSt α) (i : Nat) : 
   (getAt b bpos).bind fun lead =>
   (O.div top lead).bind fun quot =>
   (setAt st.result i quot).bind fun result =>
-  (forM (b.take bpos).zipIdx.reverse st.a fun a bj => updAt a (i + bj.2) fun v => O.sub v (O.mul bj.1 quot)).bind fun a =>
+  (loopM (b.take bpos).zipIdx.reverse st.a fun a bj => updAt a (i + bj.2) fun v => O.sub v (O.mul bj.1 quot)).bind fun a =>
   .ok { a := a, result := result, apos := wrappingPred st.apos }
 
 /-- `b[0] == ZERO` for a non-empty `b` -/
@@ -193,7 +193,7 @@ def div (O : Ops α) (a b : List α) : Res (List α) :=
   else if a.isEmpty then .ok [O.zero]
   else
     let n := apos - bpos + 1
-    (forM (List.range n).reverse { a := a, result := List.replicate n O.zero, apos := apos }
+    (loopM (List.range n).reverse { a := a, result := List.replicate n O.zero, apos := apos }
       (divStep O b bpos)).bind fun st => .ok st.result
 
 -- ================================================================================ synthetic division
@@ -213,7 +213,7 @@ def synDivLinear (O : Ops α) (p : List α) (b : α) : List α × α :=
 
 /-- `for i in (0..degree_offset).rev() { p[i] += p[i + a] * b }` (`p[i] += p[i + a]` when `b == ONE`) -/
 def synGeneralLoop (O : Ops α) (p : List α) (a : Nat) (b : α) : Res (List α) :=
-  forM (List.range (p.length - a)).reverse p fun p i =>
+  loopM (List.range (p.length - a)).reverse p fun p i =>
     (getAt p (i + a)).bind fun hi =>
     updAt p i fun lo => O.add lo (if O.isOne b then hi else O.mul hi b)
 
@@ -247,7 +247,7 @@ def fillStep (O : Ops α) (m : Nat) (st : RootSt α) (x : α) : Res (RootSt α) 
   else
     let n := st.n - 1
     (setAt st.result n O.zero).bind fun result =>
-    (forM (List.range' n (m - n)) result fun r j =>
+    (loopM (List.range' n (m - n)) result fun r j =>
       (getAt r j).bind fun lo =>
       (getAt r (j + 1)).bind fun hi =>
       setAt r j (O.sub lo (O.mul hi x))).bind fun result =>
@@ -259,7 +259,7 @@ def fillZeroRoots (O : Ops α) (xs : List α) (result : List α) : Res (List α)
   else
     let n := result.length - 1
     (setAt result n O.one).bind fun result =>
-    (forM xs { result := result, n := n } (fillStep O xs.length)).bind fun st => .ok st.result
+    (loopM xs { result := result, n := n } (fillStep O xs.length)).bind fun st => .ok st.result
 
 /-- `polynom::poly_from_roots`: the output vector has `xs.len() + 1` uninitialised cells (every cell is
     written before it is read — theorem `fillZeroRoots_eq`, so the content chosen here is irrelevant) -/
@@ -366,7 +366,7 @@ def interpolate (O : Ops α) (xs ys : List α) (removeLeading : Bool) : Res (Lis
     (mapM' (fun x => synDivRoots O roots [x]) xs).bind fun numerators =>
     let denominators := (numerators.zip xs).map fun ex => eval O ex.1 ex.2
     (batchInversion O denominators).bind fun dinv =>
-    (forM (List.range xs.length) (List.replicate xs.length O.zero) fun result i =>
+    (loopM (List.range xs.length) (List.replicate xs.length O.zero) fun result i =>
       (getAt ys i).bind fun y =>
       (getAt dinv i).bind fun d =>
       (getAt numerators i).bind fun num =>
@@ -380,7 +380,7 @@ def batchEquation (O : Ops α) (N : Nat) (roots : List α) (x : α) : Res (List 
   if N = 0 then .panic "attempt to subtract with overflow"
   else
     (getAt roots N).bind fun top =>
-    forM (List.range (N - 1)).reverse [top] fun eq k =>
+    loopM (List.range (N - 1)).reverse [top] fun eq k =>
       (getAt roots (k + 1)).bind fun r =>
       match eq with
       | e :: _ => .ok (O.add r (O.mul e x) :: eq)
@@ -403,7 +403,7 @@ def batchStep (O : Ops α) (N : Nat) (st : BatchSt α) (xs : List α) : Res (Bat
 /-- `result[i][·] += equations[i][j][·] * (ys[i][j] * inverses[i][j])` for `j in 0..N` -/
 def batchCombine (O : Ops α) (N : Nat) (equations : List (List α)) (inverses : List α)
     (i : Nat) (ys : List α) : Res (List α) :=
-  forM (List.range N) (List.replicate N O.zero) fun poly j =>
+  loopM (List.range N) (List.replicate N O.zero) fun poly j =>
     (getAt ys j).bind fun y =>
     (getAt inverses (i * N + j)).bind fun d =>
     (getAt equations (i * N + j)).bind fun eq =>
@@ -416,7 +416,7 @@ def interpolateBatch (O : Ops α) (N : Nat) (xs ys : List (List α)) : Res (List
     .panic "number of X coordinate batches and Y coordinate batches must be the same"
   else if N = 0 then .ok (List.replicate xs.length [])
   else
-    (forM xs { roots := List.replicate (N + 1) O.zero, equations := [], inverses := [] }
+    (loopM xs { roots := List.replicate (N + 1) O.zero, equations := [], inverses := [] }
       (batchStep O N)).bind fun st =>
     (batchInversion O st.inverses).bind fun inverses =>
     mapM' (fun iy : List α × Nat => batchCombine O N st.equations inverses iy.2 iy.1) ys.zipIdx
